@@ -10,6 +10,7 @@ import (
 	"runtime/debug"
 	"sort"
 	"strconv"
+	"strings"
 	"time"
 )
 
@@ -39,7 +40,21 @@ func main() {
 	repo := flag.String("repo", "/repo", "repository working tree")
 	verif := flag.String("verif", "/verif", "verification directory (evidence, KNOWN_FINDINGS.txt)")
 	list := flag.Bool("list", false, "list implemented properties")
+	dump := flag.String("dump", "", "debug: print the SSA of pkg:recv:name (recv may be empty) and exit")
+	warm := flag.Bool("warm", false, "load the repository once (fills the build cache) and exit")
 	flag.Parse()
+	if *warm {
+		if _, err := Load(LoadOpts{Repo: *repo}); err != nil {
+			fmt.Fprintln(os.Stderr, "carlint: warm-up load failed:", err)
+			os.Exit(2)
+		}
+		fmt.Println("carlint: warm")
+		return
+	}
+	if *dump != "" {
+		dumpFunc(*repo, *dump)
+		return
+	}
 	if *list {
 		var ids []string
 		for id := range registry {
@@ -92,4 +107,38 @@ func main() {
 		}
 	}
 	os.Exit(exit)
+}
+
+func dumpFunc(repo, spec string) {
+	parts := strings.Split(spec, ":")
+	if len(parts) != 3 {
+		fmt.Fprintln(os.Stderr, "want pkg:recv:name")
+		os.Exit(2)
+	}
+	c, err := Load(LoadOpts{Repo: repo})
+	if err != nil {
+		fmt.Fprintln(os.Stderr, err)
+		os.Exit(2)
+	}
+	pkg := parts[0]
+	switch {
+	case pkg == "root":
+		pkg = modRoot
+	case pkg == "v2":
+		pkg = modV2
+	case strings.HasPrefix(pkg, "v2/"):
+		pkg = modV2 + pkg[2:]
+	case strings.HasPrefix(pkg, "cmd/"):
+		pkg = modCmd + pkg[3:]
+	case strings.HasPrefix(pkg, "root/"):
+		pkg = modRoot + pkg[4:]
+	}
+	fn, err := c.Func(pkg, parts[1], parts[2])
+	if err != nil {
+		fmt.Fprintln(os.Stderr, err)
+		os.Exit(2)
+	}
+	for _, f := range withAnon(fn) {
+		f.WriteTo(os.Stdout)
+	}
 }
